@@ -39,6 +39,13 @@ class Check:
         self.t0 = time.time()
         self.workdir = os.path.join(VERIF, ".work", "%s-%s-%d" % (pid, tier, os.getpid()))
         shutil.rmtree(self.workdir, ignore_errors=True)
+        # scratch directories of runs whose process is gone (killed, crashed) are removed; live runs are left alone
+        wroot = os.path.join(VERIF, ".work")
+        if os.path.isdir(wroot):
+            for d in os.listdir(wroot):
+                owner = d.rsplit("-", 1)[-1]
+                if owner.isdigit() and not os.path.exists("/proc/" + owner):
+                    shutil.rmtree(os.path.join(wroot, d), ignore_errors=True)
         os.makedirs(self.workdir)
         os.makedirs(REPLAYS, exist_ok=True)
         for f in os.listdir(REPLAYS):
